@@ -342,8 +342,18 @@ def gen_malformed_op(rng, ctx, names, league, calls=faults.CALLS):
 
 
 def calls_params(rng, prop):
+    p = _calls_params(rng, prop)
+    if p["length"] >= 2000:
+        # a very long life of one model (thousands of calls): mostly plain sequential calls,
+        # every reference in a pristine import (a call counter hidden anywhere flips both the
+        # call and an in-process reference alike)
+        p.update(pristine_refs=True, threaded=False, p_fault=0.0, p_other_model=0.0, shape=[3, 2])
+    return p
+
+
+def _calls_params(rng, prop):
     return {
-        "length": rng.choice([4, 8, 12, 20, 32, 32, 300] if rng.random() < 0.15 else [4, 8, 12, 20, 32]),
+        "length": 2000 if rng.random() < 0.004 else rng.choice([4, 8, 12, 20, 32, 32, 300] if rng.random() < 0.15 else [4, 8, 12, 20, 32]),
         "players": rng.choice([6, 8, 12, 16, 40]),
         "population": rng.choice(["default", "mixed", "spread"]),
         "opt_rate": rng.choice([0.15, 0.35, 0.6]) if prop == "C14" else rng.choice([0.5, 0.8]),
